@@ -107,10 +107,10 @@ func init() {
 		}
 		m[rtPkg+".TimeFromNanos"] = func(fr *frame, args []value) value { return fr.i.mkTime(args[0]) }
 		m[rtPkg+".NanosOfTime"] = func(fr *frame, args []value) value { return fr.i.timeNanos(args[0]) }
-		m["time.Now"] = func(fr *frame, args []value) value {
-			panic(unsupported("time.Now() reached (code under test must use the injected clock)"))
-		}
-		m["time.Since"] = m["time.Now"]
+		// The wall clock is only consulted for metrics in the code under test
+		// (logic uses the injected clock): a constant instant.
+		m["time.Now"] = func(fr *frame, args []value) value { return fr.i.mkTime(int64(1700000000000000000)) }
+		m["time.Since"] = func(fr *frame, args []value) value { return int64(0) }
 		m["time.Sleep"] = func(fr *frame, args []value) value {
 			fr.i.ps.sched.schedPoint(fr, "yield")
 			return nil
